@@ -360,7 +360,7 @@ func c06ScaleCheck(c *C06Case) []ev.Discrepancy {
 var hostile = []string{"\xff", "\xc3", "\xe2\x82", "\xf0\x9f\x98", "\x00", "\x01", "\x7f", "\r", "\r\n", "\n", "\t", "\"", "(", "[", ")", "]", "((((", "@", "@@", "=", "==", "|", "*", "!", ";", ":", "::",
 	"1E9999999", "1E-99999999", "1e400", "9999999999999999999999999999999", "0.00000000000000000000000000001", "1,2,3.4.5", "-", "+", "--", "$", "€", "💰", "\u200b", "\ufeff", " ",
 	"2024-01-15", "2024-13-45", "0000-00-00", "99999-1-1", "1/2", "include ", "account ", "commodity ", "P ", "Y ", "D ", "Y 99999999999999999999", "alias ", "apply account ", "comment\n", "end comment\n",
-	"format ", "  ", "    ", "a:b", "expenses:food", "assets:cash  ", "EUR", "USD 1", "1 USD", "k:v", ", ", "tag:", "~ monthly", "= expenses", "\t\t"}
+	"format ", "  ", "    ", "{*,*}", "{*,*}{*,*}{*,*}{*,*}{*,*}{*,*}{*,*}{*,*}", "**/", "a:b", "expenses:food", "assets:cash  ", "EUR", "USD 1", "1 USD", "k:v", ", ", "tag:", "~ monthly", "= expenses", "\t\t"}
 
 var hostileNumRe = regexp.MustCompile(`[0-9][0-9.,]*`)
 
